@@ -306,4 +306,24 @@ PROPS = {
         "trusted_base": COMMON_TB,
         "assumptions": ["the process-wide RSL entry cache is reset through the verif hook before each history", "VerifyMergeable under cache configurations is not run"],
     },
+    "C15": {
+        "test": "TestC15",
+        "lean_modules": ["Gittuf.Props.C15"],
+        "n": {"quick": 40, "thorough": 800},
+        "min_per_shard": 20,
+        "rule": "one case = a REAL pair of repositories (bare remote + bare local with the remote as origin) whose RSLs share a prefix of 0-3 entries and "
+                "then carry local-only / remote-only suffixes of 0-4 (thorough: -10) entries: reference entries over {main, feature, dev} (65% disjoint reference sets, "
+                "35% free), annotations (70% skip, 1-2 ids, naming shared or own-suffix entries, mostly reference entries), propagation entries (35% over any "
+                "reference); shapes diverged / local ahead / remote ahead / equal / unrelated; every ordinary reference of both sides set to what the side's log "
+                "records or behind / ahead / diverged / absent (target DAG of 6 commits with a fork and a second root). 88% of the starting logs are written as "
+                "commit objects directly (same message format, checked by gittuf reading them), 12% through pkg/rsl. 60% ReconcileLocalRSLWithRemote, 40% Sync "
+                "(40% with overwrite). Before/after logs and references of both sides are read with plain git (log --first-parent, for-each-ref); new commit ids are "
+                "numbered in order of appearance. The Lean model must reproduce class, both logs (ids included) and both reference maps; the declarative spec "
+                "(new log = remote ++ rename, skips preserved, conflict incl. propagation entries => refused, refused => unchanged; sync: moves only to the latest "
+                "unskipped remote entry's target and never backwards without overwrite, publishes log only with every named reference) is evaluated on the "
+                "observation. non-trivial = logs differ (reconcile: truly diverged); distinct by input hash.",
+        "trusted_base": COMMON_TB + ["entry ids are symbolic: equal id <=> equal entry and history (content hash); entry messages written directly parse as pkg/rsl writes them (C14's subject)"],
+        "assumptions": ["unsigned RSL commits; local file-path remotes; no policy in the log (the propagation workflow inside Sync is a no-op); branch references only",
+                        "the gittuf:: transport prefix and a stale remote tracker reference are not generated"],
+    },
 }
